@@ -1,7 +1,7 @@
 (* C05 — proofs. *)
 From Coq Require Import String.
 From Coq Require Import List ZArith NArith Bool Lia.
-From SeataV Require Import Base.Bytes Tcc.Json Tcc.TccModel.
+From SeataV Require Import Base.Bytes Tcc.Json Gen.TccTable Tcc.TccModel.
 Import ListNotations.
 Open Scope Z_scope.
 
@@ -103,6 +103,35 @@ Corollary context_equiv : forall a fs,
 Proof. intros a fs. eexists. split; [apply context_roundtrip|reflexivity]. Qed.
 
 (* ---- phase two ---------------------------------------------------------------------- *)
+(* the table regenerated from the current source is the one the property needs *)
+Lemma table_ok : table_expected = true.
+Proof. vm_compute. reflexivity. Qed.
+
+Lemma phase2_is_ref : forall reg q, phase2 reg q = phase2_ref reg q.
+Proof.
+  intros reg q. pose proof table_ok as T. unfold table_expected in T. unfold phase2, phase2_ref.
+  destruct gen_branch_commit as [c|]; [|discriminate].
+  destruct gen_branch_rollback as [r|]; [|discriminate].
+  destruct gen_silent_status as [silent|]; [|discriminate].
+  destruct gen_result_codes as [[cfail csucc]|]; [|discriminate].
+  repeat rewrite andb_true_iff in T.
+  destruct T as (((((((((((((((((C1 & C2) & C3) & C4) & C5) & C6) & R1) & R2) & R3) & R4) & R5) & R6) & S1) & S2) & S3) & S4) & K1) & K2).
+  apply N.eqb_eq in C1, C2, C3, C4, C5, C6, R1, R2, R3, R4, R5, R6, K1, K2.
+  apply negb_true_iff in S1, S2, S3, S4.
+  subst cfail csucc.
+  destruct (q_commit q) eqn:Ec.
+  - rewrite C1, C3, C4, C5, C6. rewrite !N.eqb_refl.
+    destruct (q_user_fails q);
+      rewrite ?(N.eqb_sym st_commit_retry silent), ?S2, ?(N.eqb_sym st_committed silent), ?S1;
+      (destruct (registered reg (q_resource q)); [|reflexivity]);
+      (destruct (ctx_of (q_app q)) as [ctx|]; reflexivity).
+  - rewrite R1, R3, R4, R5, R6. rewrite !N.eqb_refl.
+    destruct (q_user_fails q);
+      rewrite ?(N.eqb_sym st_rollback_retry silent), ?S4, ?(N.eqb_sym st_rollbacked silent), ?S3;
+      (destruct (registered reg (q_resource q)); [|reflexivity]);
+      (destruct (ctx_of (q_app q)) as [ctx|]; reflexivity).
+Qed.
+
 Definition is_invoke (e : p2event) : bool := match e with EInvoke _ _ _ _ _ _ => true | _ => false end.
 
 Theorem dispatch : forall reg q,
@@ -123,7 +152,7 @@ Theorem dispatch : forall reg q,
   (q_user_fails q = true ->
      status_of (q_commit q) (q_user_fails q) = (if q_commit q then st_commit_retry else st_rollback_retry)).
 Proof.
-  intros reg q. unfold phase2. repeat split.
+  intros reg q. rewrite phase2_is_ref. unfold phase2_ref. repeat split.
   - intros H. rewrite H. reflexivity.
   - intros H ctx Hc. rewrite H, Hc. reflexivity.
   - intros H Hc. rewrite H, Hc. destruct (q_commit q); reflexivity.
@@ -144,17 +173,19 @@ Theorem dispatch_seq : forall reg qs,
   List.length (filter (fun q => registered reg (q_resource q) &&
                            match ctx_of (q_app q) with Some _ => true | None => false end) qs).
 Proof.
-  intros reg qs. split; [reflexivity|]. split.
-  - intros e Hin Hinv. unfold phase2_seq in Hin. apply in_flat_map in Hin. destruct Hin as (q & Hq & He).
-    exists q. split; [assumption|]. unfold phase2 in He.
+  intros reg qs. split; [reflexivity|].
+  assert (E : phase2_seq reg qs = flat_map (phase2_ref reg) qs).
+  { unfold phase2_seq. apply flat_map_ext. intros a. apply phase2_is_ref. }
+  rewrite E. clear E. split.
+  - intros e Hin Hinv. apply in_flat_map in Hin. destruct Hin as (q & Hq & He).
+    exists q. split; [assumption|]. unfold phase2_ref in He.
     destruct (registered reg (q_resource q)); [|destruct He].
     split; [reflexivity|].
     destruct (ctx_of (q_app q)) as [ctx|].
     + exists ctx. split; [reflexivity|]. destruct He as [<-|[<-|[]]]; [reflexivity|discriminate].
     + destruct He as [<-|[]]. discriminate.
-  - unfold phase2_seq. induction qs as [|q qs IH]; simpl; [reflexivity|].
+  - induction qs as [|q qs IH]; simpl; [reflexivity|].
     rewrite filter_app, app_length, IH. f_equal.
-    unfold phase2. destruct (registered reg (q_resource q)); simpl; [|reflexivity].
+    unfold phase2_ref. destruct (registered reg (q_resource q)); simpl; [|reflexivity].
     destruct (ctx_of (q_app q)); reflexivity.
 Qed.
-
